@@ -124,6 +124,13 @@ func runC07(c *Checker) {
 	// that races with a resend can leave a nil slot under the resend cursor - the race and
 	// lock-order obligations of C18 are part of "no relay-delivered bytes can crash an endpoint"
 	importLayers(c, "C18")
+	// relay bytes decide whether the GBN handshake fails; a failed handshake must end in an error the
+	// caller sees - a constructor that reports success without a connection makes mailbox
+	// dereference nil (GBNHS obligations of C10)
+	importLayers(c, "C10")
+	// the window bookkeeping the SYN's window byte drives: size() must be exact for every N the peer
+	// may propose (SIZE, as C01/C09)
+	ruleSIZE(c)
 	w := c.w
 	rg := newRanger(w)
 	inv := gbnInvariants(w, rg)
